@@ -25,7 +25,8 @@ type C09Peer struct {
 type C09Scenario struct {
 	Trusted  bool      `json:"trusted_head"` // WithTrustedHead mode
 	Peers    []C09Peer `json:"peers"`
-	Deadline bool      `json:"deadline"` // caller ctx with a 3s deadline (else 60s)
+	Deadline bool      `json:"deadline"`            // caller ctx with a 3s deadline (else 60s)
+	SoftType bool      `json:"soft_type,omitempty"` // the header type reports every rejection as soft
 }
 
 // pool of reported headers relative to the trusted header at height 20 (span 10):
@@ -46,7 +47,8 @@ func c09Pool(chain *vh.Chain) []*vh.Header {
 var c09Kinds = []string{"header", "header", "header", "header", "header", "header_case", bhNotFound, bhGarbage, bhBadValidate, bhWrongChain, bhNoChain, bhHang, bhReset, bhEmpty, bhUnknownCode}
 
 func genC09(t *rapid.T) C09Scenario {
-	s := C09Scenario{Trusted: rapid.Bool().Draw(t, "trusted"), Deadline: rapid.Bool().Draw(t, "deadline")}
+	s := C09Scenario{Trusted: rapid.Bool().Draw(t, "trusted"), Deadline: rapid.Bool().Draw(t, "deadline"),
+		SoftType: rapid.IntRange(0, 3).Draw(t, "softtype") == 0}
 	n := rapid.IntRange(1, 6).Draw(t, "npeers")
 	ranks := rapid.Permutation(seq(n)).Draw(t, "ranks")
 	// bias towards agreement: draw a favourite pool entry
@@ -80,7 +82,13 @@ func c09Quorum(n int) int {
 
 func runC09(t *testing.T, s C09Scenario) (res Result) {
 	bubble(t, func() {
-		chain := vh.ChainSpec{ChainID: "c09", N: 60, StartMs: -1_000_000, Spans: []uint64{10}}.Build()
+		spec := vh.ChainSpec{ChainID: "c09", N: 60, StartMs: -1_000_000, Spans: []uint64{10}}
+		if s.SoftType {
+			// a header type that reports every rejection as soft, also for an adjacent header: such a head must be
+			// handed over with its soft error like any other soft-failing one
+			spec.Flags = vh.FlagSoftType
+		}
+		chain := spec.Build()
 		pool := c09Pool(chain)
 		trustedHdr := chain.At(20)
 		scripts := make([][]Behaviour, len(s.Peers))
